@@ -3074,7 +3074,9 @@ func (c S3ApiController) DeleteObjects(ctx *fiber.Ctx) error {
 
 	// the access decision is taken for every key of the batch
 	for i := range dObj.Objects {
-		if dObj.Objects[i].Key == nil || backend.HasDotSegment(*dObj.Objects[i].Key) || backend.HasEmptySegment(*dObj.Objects[i].Key) ||
+		// (an empty key would name the bucket directory itself)
+		if dObj.Objects[i].Key == nil || *dObj.Objects[i].Key == "" ||
+			backend.HasDotSegment(*dObj.Objects[i].Key) || backend.HasEmptySegment(*dObj.Objects[i].Key) ||
 			!backend.IsPathComponent(backend.GetStringFromPtr(dObj.Objects[i].VersionId)) {
 			return SendResponse(ctx, s3err.GetAPIError(s3err.ErrInvalidRequest),
 				&MetaOpts{
